@@ -1280,7 +1280,7 @@ impl Channel {
         }
 
         // checked above
-        let (info2, sigs) = self.enforcement_state.next_holder_commit_info.take().unwrap();
+        let (info2, sigs) = self.enforcement_state.next_holder_commit_info.clone().unwrap();
         let incoming_payment_summary =
             self.enforcement_state.incoming_payments_summary(Some(&info2), None);
         let outgoing_payment_summary = self.enforcement_state.payments_summary(Some(&info2), None);
@@ -1290,6 +1290,17 @@ impl Channel {
 
         let delta =
             self.enforcement_state.claimable_balances(&*state, Some(&info2), None, &self.setup);
+
+        // Other channels may have changed the node's in-flight payments since this
+        // commitment was validated, so check the balance again before it becomes current.
+        state.validate_payments(
+            &self.id0,
+            &incoming_payment_summary,
+            &outgoing_payment_summary,
+            &delta,
+            validator.clone(),
+        )?;
+        self.enforcement_state.next_holder_commit_info = None;
 
         let (next_holder_commitment_point, maybe_old_secret) = self
             .advance_holder_commitment_state(
